@@ -148,7 +148,7 @@ Definition model_print (c : case) : bstr :=
 
 Definition agree (c : case) : bool :=
   (negb (c_valid c) || bstr_eqb (model_print c) (c_payload c)) &&
-  stream_eqb (map proj (fst (model_stream c)), snd (model_stream c)) (map proj (c_obs c), c_ok c).
+  (let ms := model_stream c in stream_eqb (map proj (fst ms), snd ms) (map proj (c_obs c), c_ok c)).
 
 Definition spec_stream (c : case) : list entry :=
   let O := oracles_of c in
